@@ -398,10 +398,14 @@ def main(argv=None):
             if sig in open_sigs:
                 known_hit[sig] += n
 
+    # shrunk failing cases go to replays/<ID>/new-*.json; runs against scratch
+    # copies (mutants, seeded changes) set VF_FOUND_DIR so that they never
+    # leave files where a concurrent run on the real tree would replay them
+    found_dir = os.environ.get("VF_FOUND_DIR") or replay_dir
     for (lawname, sig), (size, msg, draws) in sorted(found.items()):
-        os.makedirs(replay_dir, exist_ok=True)
+        os.makedirs(found_dir, exist_ok=True)
         h = hashlib.sha1(f"{lawname}/{sig}".encode()).hexdigest()[:10]
-        path = os.path.join(replay_dir, f"new-{h}.json")
+        path = os.path.join(found_dir, f"new-{h}.json")
         with open(path, "w") as f:
             json.dump(
                 {
@@ -416,7 +420,9 @@ def main(argv=None):
                 f,
                 indent=1,
             )
-        violations.append((sig, msg, os.path.relpath(path, HERE)))
+        violations.append(
+            (sig, msg, os.path.relpath(path, HERE)
+             if path.startswith(HERE) else path))
 
     # ------------------------------------------------------------ report
     for sig, k in open_sigs.items():
